@@ -14,6 +14,7 @@ Has(s, b) == \E i \in 1..Len(s) : s[i] = b
 Count(s, b) == LET RECURSIVE C(_)
                    C(i) == IF i = 0 THEN 0 ELSE C(i - 1) + (IF s[i] = b THEN 1 ELSE 0)
                IN  C(Len(s))
+IsPrefixOf(a, b) == Len(a) <= Len(b) /\ SubSeq(b, 1, Len(a)) = a
 Repeat(b, n) == [i \in 1..n |-> b]
 Map(s, F(_)) == [i \in 1..Len(s) |-> F(s[i])]
 =============================================================================
